@@ -177,7 +177,7 @@ func c07GenSentLines(g *Gen, cfs ...*c07Conf) {
 								if mode != (pi+wi)%3 {
 									continue
 								}
-							} else if wi != (xi+pi)%3 || mode != (xi+2*pi)%3 || (xi+pi+ci)%2 == 1 {
+							} else if wi != (xi+pi)%3 || mode != (xi+2*pi)%3 || (xi+pi+ci)%4 != 0 {
 								continue
 							}
 						}
